@@ -9,6 +9,7 @@ import (
 
 	"free5gclib/nas/nasMessage"
 	"stgutg"
+	"tglib"
 	"verifharness/internal/ev"
 )
 
@@ -35,6 +36,57 @@ func main() {
 		reps = 4
 	}
 	id := 0
+	var prevKept []*tglib.RanUeContext
+	var prevKeys [3]string
+	population := func(imsi string, mncLen, n int) {
+		k, opc, op := fmt.Sprintf("%x", ev.Bytes(r, 16)), fmt.Sprintf("%X", ev.Bytes(r, 16)), fmt.Sprintf("%x", ev.Bytes(r, 16))
+		switch id % 4 { // keys whose text begins with zero digits must arrive digit for digit
+		case 1:
+			k = "0" + k[1:]
+		case 2:
+			opc, op = "00"+opc[2:], "000"+op[3:]
+		case 3:
+			k, op = "0000"+k[4:], "0"+op[1:]
+		}
+		var supis [][]int
+		var rans []int
+		okKeys, okCaps := true, true
+		var kept []*tglib.RanUeContext
+		p := ev.Catch(func() {
+			for i := 0; i < n; i++ {
+				ue := stgutg.CreateUE(imsi, i, k, opc, op)
+				if i < 3 {
+					kept = append(kept, ue)
+				}
+				supis = append(supis, ev.Ints([]byte(ue.Supi)))
+				rans = append(rans, int(ue.RanUeNgapId))
+				a := ue.AuthenticationSubs
+				if a.PermanentKey == nil || a.PermanentKey.PermanentKeyValue != k || a.Opc == nil || a.Opc.OpcValue != opc ||
+					a.Milenage == nil || a.Milenage.Op == nil || a.Milenage.Op.OpValue != op {
+					okKeys = false
+				}
+				c := ue.GetUESecurityCapability()
+				// exactly the algorithms of the context: octet 1 = 5G-EA bits, octet 2 = 5G-IA bits (TS 24.501 9.11.3.54)
+				wantEA := byte(0x80) >> ue.CipheringAlg
+				wantIA := byte(0x80) >> ue.IntegrityAlg
+				if c == nil || c.Iei != nasMessage.RegistrationRequestUESecurityCapabilityType || len(c.Buffer) < 2 || c.Buffer[0] != wantEA || c.Buffer[1] != wantIA {
+					okCaps = false
+				}
+			}
+		})
+		// the UEs of the previous population must still carry their own K / OP / OPc now that other UEs exist
+		for _, ue := range prevKept {
+			a := ue.AuthenticationSubs
+			if a.PermanentKey == nil || a.PermanentKey.PermanentKeyValue != prevKeys[0] || a.Opc == nil || a.Opc.OpcValue != prevKeys[1] ||
+				a.Milenage == nil || a.Milenage.Op == nil || a.Milenage.Op.OpValue != prevKeys[2] {
+				okKeys = false
+			}
+		}
+		prevKept, prevKeys = kept, [3]string{k, opc, op}
+		w.Emit(ev.M{"ev": "Population", "id": id, "imsi": ev.Ints([]byte(imsi)), "mncLen": mncLen, "n": n, "supis": supis, "rans": rans,
+			"keysEqual": okKeys, "capsExact": okCaps, "panic": p != ""})
+		id++
+	}
 	for rep := 0; rep < reps; rep++ {
 		szs := sizes
 		if *tier != "thorough" && rep == 0 {
@@ -69,39 +121,34 @@ func main() {
 						msin = "1" + msin[1:]
 					}
 				}
+				if (rep+n)%4 == 2 && n >= 2 && msinLen >= 3 {
+					// the population crosses a power of ten inside the MSIN: the carry must run through every digit
+					j := []int{msinLen - 1, 9, 4, 2}[id%4]
+					if j >= msinLen {
+						j = msinLen - 1
+					}
+					p10 := 1
+					for i := 0; i < j; i++ {
+						p10 *= 10
+					}
+					msin = fmt.Sprintf("%0*d", msinLen, p10-1-r.Intn(n-1))
+				}
 				mcc := []string{"001", "208", "999", digits(r, 3)}[r.Intn(4)]
 				mnc := digits(r, mncLen)
 				if rep == 0 {
 					mcc = "001" // leading zeros in the MCC
 				}
-				imsi := mcc + mnc + msin
-				k, opc, op := fmt.Sprintf("%x", ev.Bytes(r, 16)), fmt.Sprintf("%X", ev.Bytes(r, 16)), fmt.Sprintf("%x", ev.Bytes(r, 16))
-				var supis [][]int
-				var rans []int
-				okKeys, okCaps := true, true
-				p := ev.Catch(func() {
-					for i := 0; i < n; i++ {
-						ue := stgutg.CreateUE(imsi, i, k, opc, op)
-						supis = append(supis, ev.Ints([]byte(ue.Supi)))
-						rans = append(rans, int(ue.RanUeNgapId))
-						a := ue.AuthenticationSubs
-						if a.PermanentKey == nil || a.PermanentKey.PermanentKeyValue != k || a.Opc == nil || a.Opc.OpcValue != opc ||
-							a.Milenage == nil || a.Milenage.Op == nil || a.Milenage.Op.OpValue != op {
-							okKeys = false
-						}
-						c := ue.GetUESecurityCapability()
-						// exactly the algorithms of the context: octet 1 = 5G-EA bits, octet 2 = 5G-IA bits (TS 24.501 9.11.3.54)
-						wantEA := byte(0x80) >> ue.CipheringAlg
-						wantIA := byte(0x80) >> ue.IntegrityAlg
-						if c == nil || c.Iei != nasMessage.RegistrationRequestUESecurityCapabilityType || len(c.Buffer) < 2 || c.Buffer[0] != wantEA || c.Buffer[1] != wantIA {
-							okCaps = false
-						}
-					}
-				})
-				w.Emit(ev.M{"ev": "Population", "id": id, "imsi": ev.Ints([]byte(imsi)), "mncLen": mncLen, "n": n, "supis": supis, "rans": rans,
-					"keysEqual": okKeys, "capsExact": okCaps, "panic": p != ""})
-				id++
+				population(mcc+mnc+msin, mncLen, n)
 			}
 		}
+	}
+	// populations that cross each power of ten inside a 10-digit MSIN (the carry must run through every digit, also beyond the ninth)
+	for j := 1; j <= 9; j++ {
+		p10 := 1
+		for i := 0; i < j; i++ {
+			p10 *= 10
+		}
+		population(fmt.Sprintf("20893%010d", p10-2), 2, 5)
+		population(fmt.Sprintf("310260%09d", (p10-2)%1000000000), 3, 5)
 	}
 }
